@@ -380,6 +380,12 @@ func (s Schema) DrawPanelQuery(t *rapid.T, closure []m.Pred) m.Rule {
 			q.Body = append(q.Body, s.drawBodyPred(t, sc))
 		}
 	}
+	if len(q.Body) > 0 && rapid.IntRange(0, 3).Draw(t, "pq.headisbody") == 3 {
+		// the head repeats a body predicate: every answer is a fact the world already holds
+		b := q.Body[rapid.IntRange(0, len(q.Body)-1).Draw(t, "pq.whichbody")]
+		q.Head = m.Pred{Name: b.Name, Terms: append([]m.Term{}, b.Terms...)}
+		return q
+	}
 	q.Head = m.Pred{Name: "panel"}
 	for _, n := range sc.names {
 		if rapid.IntRange(0, 3).Draw(t, "pq.head") > 0 {
